@@ -28,6 +28,7 @@ type OrderInfo struct {
 	HadMeta       bool
 	Timeout       uint64
 	StoreTxSigner string
+	SignerDid     string // DID whose key signed the (intact) request that created the order
 	ExcessAtStore map[string]int64 // per provider: used capacity beyond its stored shards just before the order was created
 }
 
@@ -130,6 +131,7 @@ func (trackOracle) Step(e *Env, si *StepInfo) {
 			if si.Built != nil {
 				oi.StoreTxSigner = si.Built.Signer.AddrS
 				if au := si.Built.Auth; au != nil && au.Intact {
+					oi.SignerDid = au.SignerDid
 					pm, had := prev.Model.Metas[o.DataId]
 					if !had {
 						oi.Authorized = true // creation: the signer becomes the owner
